@@ -38,6 +38,9 @@ def run(ctx):
     ctx.rule('C09.g-reused-space-like-fresh', 'after a rate switch the dedicated codec runs on a used working space: every truncated transform is preceded by zeroing of its tail, as on a fresh codec (clause shared with C05.c)')
     from . import c05 as c05_
     ctx.guard('C09.analysable', ctx.shared, {'C05.c-truncated-ifft-zeroed': 'C09.g-reused-space-like-fresh'}, c05_.ifft_rule, ctx, ctx.facts(cfgs[0]), cfgs[0])
+    ctx.rule('C09.h-store-geometry-rewritten', 'the shard store a dedicated codec inherits at a rate switch (or keeps over a reset) is completely re-described by its resize: no stride, byte or tail length of the previous configuration survives (clause shared with C04.d)')
+    from . import c04 as c04_
+    ctx.guard('C09.analysable', c04_.store_resize_complete, ctx, ctx.facts(cfgs[0]), cfgs[0], 'C09.h-store-geometry-rewritten')
     ctx.rule('C09.f-any-engine', 'the wrappers and one-shot functions (default engine) give the bytes of the default-rate codec with any engine: the selectable engines are siblings (clauses shared with C03.a / C03.e)')
     from . import c03
     ctx.guard('C09.analysable', ctx.shared, {'C03.e-kernel-siblings': 'C09.f-any-engine'}, c03.kernel_siblings, ctx, {c: ctx.facts(c) for c in ('x86_64', 'aarch64')})
